@@ -348,6 +348,15 @@ Section ReductionGeneric.
     exists a, asteps leqb guard rd wr c0 a /\ thrs a = thrs c /\ forall m, objs a m = objs c m.
   Proof. exact (reduction leqb leqb_spec guard rd wr). Qed.
 
+  (* the same with schedules (Lipton reduction proper): the atomic-section execution moves the threads in the
+     order in which the fine-grained schedule moved them, minus stutter steps ([sublist]); each section is executed
+     at the position of its Rel; every thread's own order is kept *)
+  Theorem C12_reduction_schedule :
+    forall c0 sch c, red_init leqb guard c0 -> vrun leqb guard rd wr c0 sch c -> quiescent c ->
+    exists sch' a, arun leqb guard rd wr c0 sch' a /\ sublist sch' sch /\
+                   thrs a = thrs c /\ forall m, objs a m = objs c m.
+  Proof. exact (reduction_schedule leqb leqb_spec guard rd wr). Qed.
+
   (* one fine-grained step is a stutter or exactly one step of the atomic-section semantics, under the roll-back
      abstraction [sim] (threads inside a section put back to their Acq, their object to its value at the Acq) *)
   Theorem C12_reduction_step :
@@ -357,6 +366,7 @@ Section ReductionGeneric.
 End ReductionGeneric.
 Print Assumptions C12_value_semantics_refines_lock_ir.
 Print Assumptions C12_reduction_to_atomic_sections.
+Print Assumptions C12_reduction_schedule.
 Print Assumptions C12_reduction_step.
 
 (* per-run obligation on the regenerated IR: every exported method of CodeStore, deny.Store, chanmap.Store is a
@@ -377,6 +387,29 @@ Proof.
            prog_methods_reduce rd wr LockGen.store_methods LockGen.prog c0 c gen_store_methods_exclusive_sections).
 Qed.
 Print Assumptions C12_relay_store_methods_reduce.
+
+(* more generally: every generated body that is a sequence of exclusive sections (on the current tree: all goroutine
+   bodies and handlers except Hub.run [one RLock section], Hub.GetStats / the status handler / statsReporter
+   [shared sections on Frames.mu nested in one on Hub.mu]) - any pool of such threads reduces to atomic sections *)
+Definition reducible_names : list string :=
+  map fst (filter (fun e => msec_sfn (snd e)) LockGen.prog).
+Definition not_reducible := Eval vm_compute in
+  map fst (filter (fun e => negb (msec_sfn (snd e))) LockGen.prog).
+Print not_reducible.
+
+Example gen_reducible_bodies : msec_prog reducible_names LockGen.prog = true.
+Proof. vm_compute. reflexivity. Qed.
+
+Theorem C12_relay_reducible_bodies_reduce :
+  forall (Ob Lo : Type) (rd : oname -> Lo -> Ob -> Lo) (wr : oname -> Lo -> Ob -> Lo * Ob) c0 c,
+  runs_methods reducible_names LockGen.prog c0 ->
+  vsteps oname_eqb guard_of rd wr c0 c -> quiescent c ->
+  exists a, asteps oname_eqb guard_of rd wr c0 a /\ thrs a = thrs c /\ forall m, objs a m = objs c m.
+Proof.
+  exact (fun Ob Lo rd wr c0 c =>
+           prog_methods_reduce rd wr reducible_names LockGen.prog c0 c gen_reducible_bodies).
+Qed.
+Print Assumptions C12_relay_reducible_bodies_reduce.
 
 (* non-vacuity: two threads, one object, thread 1 moves in the middle of thread 0's section and then waits for the
    lock; the hypotheses of the reduction hold and the run ends with the sum in the object and the old values returned *)
